@@ -7,7 +7,7 @@ import sys
 from hypothesis import strategies as st
 
 from vlib import dna, gen, kits
-from vlib.runner import HarnessError, Violation, run_body
+from vlib.runner import HarnessError, Reject, Violation, run_body
 
 ID = "C06"
 LEVEL = "exploration"
@@ -15,7 +15,7 @@ TECHNIQUE = ("history-based property testing: generated and exhaustively enumera
              "validation histories, each run in a forked pristine interpreter and "
              "compared query-by-query with the same query issued first in its own "
              "pristine fork")
-RULE = ("a history is a list of queries (class, record) over the 85 concrete kit "
+RULE = ("a history is a list of queries (class, record, kind of record: CircularRecord / SeqRecord declared linear / SeqRecord declared circular) over the 85 concrete kit "
         "classes, generic classes and subclasses created inside the history (with "
         "and without an overriding signature); records are generated instances of "
         "the classes involved, optionally mutated. The history runs in one os.fork()ed "
@@ -58,11 +58,22 @@ def _resolve(name, local):
     return cls
 
 
-def _query(cls, word):
+def _record(word, topo):
+    """'c': CircularRecord; 'l': SeqRecord declared linear; 'r': SeqRecord
+    declared circular (same nucleotides, different kind of record)."""
     from Bio.Seq import Seq
+    from Bio.SeqRecord import SeqRecord
     from moclo.record import CircularRecord
+    if topo == "l":
+        return SeqRecord(Seq(word), id="r", annotations={"topology": "linear"})
+    if topo == "r":
+        return SeqRecord(Seq(word), id="r", annotations={"topology": "circular"})
+    return CircularRecord(Seq(word), id="r")
+
+
+def _query(cls, word, topo="c"):
     try:
-        ent = cls(CircularRecord(Seq(word), id="r"))
+        ent = cls(_record(word, topo))
         ok = ent.is_valid()
         if not ok:
             return [False]
@@ -93,8 +104,9 @@ def run_forked(history, words):
             os.close(r)
             local = {}
             out = []
-            for cname, wi in history:
-                out.append(_query(_resolve(cname, local), words[wi]))
+            for q in history:
+                cname, wi = q[0], q[1]
+                out.append(_query(_resolve(cname, local), words[wi], q[2] if len(q) > 2 else "c"))
             data = json.dumps(out).encode()
             with os.fdopen(w, "wb") as fh:
                 fh.write(data)
@@ -124,10 +136,10 @@ def run_forked(history, words):
 _BASELINE = {}
 
 
-def baseline(cname, word):
-    key = (cname, word)
+def baseline(cname, word, topo="c"):
+    key = (cname, word, topo)
     if key not in _BASELINE:
-        _BASELINE[key] = run_forked([[cname, 0]], [word])[0]
+        _BASELINE[key] = run_forked([[cname, 0, topo]], [word])[0]
     return _BASELINE[key]
 
 
@@ -146,18 +158,24 @@ def check(spec, ctx):
     history, words = spec["history"], spec["words"]
     got = run_forked(history, words)
     nontrivial = False
-    for i, ((cname, wi), res) in enumerate(zip(history, got)):
+    for i, (q, res) in enumerate(zip(history, got)):
+        cname, wi = q[0], q[1]
+        topo = q[2] if len(q) > 2 else "c"
         # baseline: for dynamically created subclasses the baseline is the same
         # creation + query in a fresh child
-        want = baseline(cname, words[wi])
+        want = baseline(cname, words[wi], topo)
         if res != want:
             prior = [h[0] for h in history[:i]]
             raise Violation("HISTORY-DEPENDENT",
-                            "query %d: %s on %r answers %r after validating %r, but %r when "
+                            "query %d: %s on %r (%s) answers %r after validating %r, but %r when "
                             "asked first in a fresh interpreter" % (
-                                i, cname, words[wi], res, prior, want))
+                                i, cname, words[wi], {"c": "CircularRecord", "l": "linear SeqRecord",
+                                                      "r": "circular SeqRecord"}[topo],
+                                res, prior, want))
         if any(_related(cname, p[0]) for p in history[:i]):
             nontrivial = True
+        if any(p[0] == cname and p[1] == wi and (p[2] if len(p) > 2 else "c") != topo for p in history[:i]):
+            nontrivial = True           # same class and nucleotides, other topology
     ctx.event("queries", len(history))
     ctx.note(spec, nontrivial, ["history-len:%d" % len(history)])
 
@@ -180,9 +198,17 @@ def exhaustive_tasks(tier):
 
 def run_exhaustive(a, ctx):
     mod = sys.modules[__name__]
-    wa = fixed_instance(a)
+    try:
+        wa = fixed_instance(a)
+    except Reject:
+        ctx.reject("no-instance:" + a)
+        return
     for b in kits.kit_class_names():
-        wb = fixed_instance(b)
+        try:
+            wb = fixed_instance(b)
+        except Reject:
+            ctx.reject("no-instance:" + b)
+            continue
         spec = {"history": [[a, 0], [b, 0], [b, 1]], "words": [wa, wb]}
         run_body(mod, spec, ctx)
 
@@ -201,7 +227,11 @@ def _histories(draw):
         cn = draw(st.sampled_from(pool))
         ispec = draw(kits.instance_spec(cn, max_star=12, max_b=20,
                                         n_mut=(0, 1) if draw(st.booleans()) else (0, 0)))
-        words.append(kits.build_instance(ispec)[1])
+        try:
+            words.append(kits.build_instance(ispec)[1])
+        except Reject:
+            import hypothesis
+            hypothesis.reject()
         rec_classes.append(cn)
     nq = draw(st.integers(2, 8))
     history = []
@@ -227,8 +257,15 @@ def _histories(draw):
                 cn = draw(st.sampled_from(pool))
         else:
             cn = draw(st.sampled_from(names))
-        history.append([cn, draw(st.integers(0, nrec - 1))])
-    return {"history": history, "words": words}
+        q = [cn, draw(st.integers(0, nrec - 1))]
+        t = draw(st.integers(0, 5))
+        if t >= 4:
+            q.append("l" if t == 4 else "r")
+        history.append(q)
+        if history and draw(st.integers(0, 5)) == 0:
+            # the same class on the same nucleotides under another topology
+            history.append([q[0], q[1], draw(st.sampled_from(["l", "r", "c"]))])
+    return {"history": history[:10], "words": words}
 
 
 def strategies(tier):
